@@ -478,3 +478,35 @@ Proof.
   apply orb_false_iff in H. destruct H as [A B].
   destruct (negb (a =? j)); cbn [existsb]; rewrite ?A; auto.
 Qed.
+
+(** The event-type constants regenerated from the module are ordered as the
+    algorithm needs: pedal down, pedal up, note on, note off. *)
+Lemma code_order : SUSTAIN_ON < SUSTAIN_OFF /\ SUSTAIN_OFF < NOTE_ON /\ NOTE_ON < NOTE_OFF.
+Proof. unfold SUSTAIN_ON, SUSTAIN_OFF, NOTE_ON, NOTE_OFF. lia. Qed.
+
+Lemma remove_first_eq_other : forall (q : nat -> bool) cs v act,
+  (forall a, cell_at cs a = v -> q a = false) ->
+  filter q (remove_first_eq cs v act) = filter q act.
+Proof.
+  induction act; intros; cbn [remove_first_eq]; auto.
+  destruct (note_eqb (cell_at cs a) v) eqn:E.
+  - apply note_eqb_eq in E. cbn [filter]. rewrite (H a E). reflexivity.
+  - cbn [filter]. rewrite IHact by exact H. reflexivity.
+Qed.
+
+Lemma nth_Forall2 : forall {A B} (R : A -> B -> Prop) (d : B) l l',
+  length l' = length l -> (forall j a, nth_error l j = Some a -> R a (nth j l' d)) -> Forall2 R l l'.
+Proof.
+  induction l; intros [|b l'] L H; cbn [length] in L; try discriminate; constructor.
+  - apply (H O a eq_refl).
+  - apply IHl; [lia|]. intros j x Hj. apply (H (S j) x Hj).
+Qed.
+
+
+Lemma ordered_b_nth : forall ns j n, ordered_b ns = true -> nth_error ns j = Some n ->
+  n_drum n = false -> n_start n <= n_end n.
+Proof.
+  unfold ordered_b; intros. rewrite forallb_forall in H. apply nth_error_In in H0.
+  specialize (H n H0). rewrite H1 in H. cbn [orb] in H. lia.
+Qed.
+
